@@ -754,3 +754,78 @@ def check_oracles(w):
             if m.too_full:
                 out["C09"].append(("pause introduced although latency control is off", {"side": side}))
     return out
+
+
+# ---------------------------------------------------------------------- per-property entry point
+STREAM_TB = [
+    "modelled, not verified: kernel TCP sockets (connect/recv/send/shutdown outcomes are the environment's answers; send() after shutdown(SHUT_WR) fails with EPIPE), level-triggered select, CPython reference counting closing a dropped socket",
+    "the ssh link is a FIFO of whole frames in the stream model; its byte-level refinement is property C07 (c07_link_fifo)",
+    "harness/props/stream_common.py: fake sockets/pipes, the micro-step logger wrapped around the real Proxy/Mux methods, and the normalisation that removes the server's initial empty ROUTES message",
+]
+STREAM_ASSUMPTIONS = [
+    "connect() never reports EINVAL (the pre-2.5.1 BSD work-around path of try_connect is not exercised)",
+    "Mux.fill is only entered when the pipe has data (read() returning None would raise TypeError in a debug2 argument)",
+    "ghost flow numbers (fid) are attached by the model only; the correspondence compares everything except them",
+]
+
+
+def stream_check(ctx, prop, profiles, n_quick, n_thorough):
+    """run generated cases of the given profiles; report oracle violations of `prop`"""
+    import random
+    n = n_quick if ctx.quick() else n_thorough
+    rng = ctx.rng
+    batch, worlds = [], []
+
+    def flush():
+        outs = ctx.run_driver([w.model_line() for w in batch])
+        for w, out in zip(batch, outs):
+            ok = compare(ctx, w, out, {"seed": w.case["seed"], "profile": w.case["profile"], "case": w.case})
+            orc = check_oracles(w)
+            for what, detail in orc.get(prop, []):
+                rep = {"case": w.case, "detail": detail, "events": len(w.log)}
+                if detail.get("finding_id"):
+                    rep["finding_id"] = detail["finding_id"]
+                    ctx.known(detail["finding_id"], what)
+                ctx.violation(what, rep)
+            for p2, lst in orc.items():
+                if p2 != prop and lst:
+                    ctx.count("other_property_alarm_%s" % p2, len(lst))
+        del batch[:]
+    for i in range(n):
+        profile = profiles[i % len(profiles)]
+        case = gen_case(rng, profile, ctx.quick())
+        w = run_case(ctx, case)
+        nflows = len(w.prox["c"])
+        ctx.count("profile_" + profile)
+        ctx.count("flows", nflows)
+        ctx.count("events", len(w.log))
+        if w.crash:
+            ctx.count("crash_" + w.crash)
+        if any(a.get("faulty") or d.get("faulty") for a, d in case["flows"]):
+            ctx.count("cases_with_injected_fault")
+        if case["maxc"] < 100:
+            ctx.count("cases_with_tiny_identifier_space")
+        if not case["latency"]:
+            ctx.count("cases_latency_off")
+        ctx.case((case["seed"], profile), nontrivial=nflows > 0,
+                 sample={"profile": profile, "maxc": case["maxc"], "lbs": case["lbs"], "latency": case["latency"],
+                         "flows": [[a.get("data"), d.get("data"), d.get("connect")] for a, d in case["flows"]],
+                         "micro_steps": len(w.log), "iterations": len(w.real_snaps)})
+        batch.append(w)
+        if len(batch) >= 25:
+            flush()
+    flush()
+    ctx.programs = ctx.evaluations
+
+
+def stream_replay(ctx, rp, prop):
+    case = rp.get("replay", {}).get("case")
+    if not case:
+        print("nothing replayable")
+        return False
+    w = run_case(ctx, case)
+    out = ctx.run_driver([w.model_line()])[0]
+    compare(ctx, w, out, "replay")
+    orc = check_oracles(w)
+    print("oracle results:", orc.get(prop), "disagreements:", len(ctx.disagreements))
+    return bool(orc.get(prop)) or bool(ctx.disagreements)
